@@ -1,9 +1,429 @@
-//! STUB component for hmat -- to be written
+//! component 15: HMAT.  Case vocabulary documented in coq/theories/Spec/HmatS.v.
 use crate::sx::*;
+use crate::tcommon::*;
 use crate::Emit;
+use acpi_tables::hmat::*;
 
-pub fn run(_case: &Sx, _out: &mut Vec<Ev>) {
-    panic!("harness: component hmat not implemented")
+fn loc_type(n: u64) -> LocalityType {
+    match n {
+        0 => LocalityType::Memory,
+        1 => LocalityType::FirstLevelCache,
+        2 => LocalityType::SecondLevelCache,
+        3 => LocalityType::ThirdLevelCache,
+        _ => panic!("harness: bad LocalityType"),
+    }
 }
 
-pub fn gen(_tier: &str, _rng: &mut Rng, _emit: &mut Emit) {}
+fn data_type(n: u64) -> DataType {
+    match n {
+        0 => DataType::AccessLatency,
+        1 => DataType::ReadLatency,
+        2 => DataType::WriteLatency,
+        3 => DataType::AccessBandwidth,
+        4 => DataType::ReadBandwidth,
+        5 => DataType::WriteBandwidth,
+        _ => panic!("harness: bad DataType"),
+    }
+}
+
+fn min_transfer(n: u64) -> MinTransferSize {
+    match n {
+        0 => MinTransferSize::SizeByteAligned,
+        1 => MinTransferSize::Size64b,
+        2 => MinTransferSize::Size128b,
+        3 => MinTransferSize::Size256b,
+        4 => MinTransferSize::Size512b,
+        5 => MinTransferSize::Size1k,
+        6 => MinTransferSize::Size2k,
+        7 => MinTransferSize::Size4k,
+        8 => MinTransferSize::Size8k,
+        9 => MinTransferSize::Size16k,
+        10 => MinTransferSize::Size32k,
+        11 => MinTransferSize::Size64k,
+        _ => panic!("harness: bad MinTransferSize"),
+    }
+}
+
+fn cache_level(n: u64) -> CacheLevel {
+    match n {
+        0 => CacheLevel::None,
+        1 => CacheLevel::One,
+        2 => CacheLevel::Two,
+        3 => CacheLevel::Three,
+        _ => panic!("harness: bad CacheLevel"),
+    }
+}
+
+fn associativity(n: u64) -> Associativity {
+    match n {
+        0 => Associativity::None,
+        1 => Associativity::DirectMapped,
+        2 => Associativity::Complex,
+        _ => panic!("harness: bad Associativity"),
+    }
+}
+
+fn write_policy(n: u64) -> WritePolicy {
+    match n {
+        0 => WritePolicy::None,
+        1 => WritePolicy::Writeback,
+        2 => WritePolicy::Writethrough,
+        _ => panic!("harness: bad WritePolicy"),
+    }
+}
+
+pub fn run(case: &Sx, out: &mut Vec<Ev>) {
+    let c = case.list();
+    let ctor = c[0].list();
+    let (oem, tbl, rev) = hdr_args(ctor);
+    let mut t = HMAT::new(oem, tbl, rev);
+    for op in &c[1..] {
+        if let Sx::A(_) = op {
+            out.push(image(&t));
+            continue;
+        }
+        let o = op.list();
+        let n = |i: usize| o[i].num();
+        match n(0) {
+            1 => t.add_memory_proximity(MemoryProximityDomain::new(n(1) as u32, n(2) as u32)),
+            2 => {
+                let mut s = SystemLocality::new(loc_type(n(1)), data_type(n(2)), min_transfer(n(3)), n(4), n(5) as usize, n(6) as usize);
+                for b in o[7].list() {
+                    let b = b.list();
+                    match b[0].num() {
+                        1 => s.non_sequential_transfers(),
+                        2 => s.minimum_transfer_size_required(),
+                        3 => s.set_initiator_value(b[1].num() as usize, b[2].num() as u32),
+                        4 => s.set_target_value(b[1].num() as usize, b[2].num() as u32),
+                        5 => s.set_entry_value(b[1].num() as usize, b[2].num() as usize, b[3].num() as u16),
+                        _ => panic!("harness: bad locality builder"),
+                    }
+                }
+                t.add_system_locality(s)
+            }
+            3 => {
+                let mut m = MemorySideCache::new(
+                    n(1) as u32,
+                    n(2),
+                    cache_level(n(3)),
+                    cache_level(n(4)),
+                    associativity(n(5)),
+                    write_policy(n(6)),
+                    n(7) as u16,
+                );
+                for h in o[8].list() {
+                    m.add_smbios_handle(h.num() as u16);
+                }
+                t.add_memory_side_cache(m)
+            }
+            _ => panic!("harness: bad hmat op"),
+        }
+        out.push(Ev::Num(0));
+    }
+}
+
+fn rand_ctor(rng: &mut Rng) -> Sx {
+    l(rand_hdr(rng))
+}
+
+/// (2 lt dt mts unit ni nt builders)
+fn locality(rng: &mut Rng, ni: u64, nt: u64, builders: Vec<Sx>) -> Sx {
+    l(vec![a(2), a(rng.below(4)), a(rng.below(6)), a(rng.below(12)), a(rng.val(64)), a(ni), a(nt), l(builders)])
+}
+
+fn rand_loc_builder(rng: &mut Rng, ni: u64, nt: u64) -> Sx {
+    let mut choices: Vec<u64> = vec![1, 2];
+    if ni > 0 {
+        choices.push(3);
+    }
+    if nt > 0 {
+        choices.push(4);
+    }
+    if ni > 0 && nt > 0 {
+        choices.push(5);
+        choices.push(5);
+    }
+    match *rng.pick(&choices) {
+        3 => l(vec![a(3), a(rng.below(ni)), a(rng.val(32))]),
+        4 => l(vec![a(4), a(rng.below(nt)), a(rng.val(32))]),
+        5 => l(vec![a(5), a(rng.below(ni)), a(rng.below(nt)), a(rng.val(16))]),
+        b => l(vec![a(b)]),
+    }
+}
+
+fn side_cache(rng: &mut Rng, handles: usize) -> Sx {
+    l(vec![
+        a(3),
+        a(rng.val(32)),
+        a(rng.val(64)),
+        a(rng.below(4)),
+        a(rng.below(4)),
+        a(rng.below(3)),
+        a(rng.below(3)),
+        a(rng.val(16)),
+        l((0..handles).map(|_| a(rng.val(16))).collect()),
+    ])
+}
+
+pub fn rand_op(rng: &mut Rng, kind: u64) -> Sx {
+    match kind {
+        1 => l(vec![a(1), a(rng.val(32)), a(rng.val(32))]),
+        2 => {
+            let ni = rng.below(6);
+            let nt = rng.below(6);
+            let k = rng.below(13);
+            let bs = (0..k).map(|_| rand_loc_builder(rng, ni, nt)).collect();
+            locality(rng, ni, nt, bs)
+        }
+        _ => {
+            let k = rng.below(9) as usize;
+            side_cache(rng, k)
+        }
+    }
+}
+
+/// every cell of an ni x nt matrix assigned in random order, with `extra` repeated assignments mixed in
+fn all_cells(rng: &mut Rng, ni: u64, nt: u64, extra: u64) -> Vec<Sx> {
+    let mut cells: Vec<(u64, u64)> = Vec::new();
+    for i in 0..ni {
+        for j in 0..nt {
+            cells.push((i, j));
+        }
+    }
+    for _ in 0..extra {
+        if ni > 0 && nt > 0 {
+            cells.push((rng.below(ni), rng.below(nt)));
+        }
+    }
+    // Fisher-Yates
+    for k in (1..cells.len()).rev() {
+        let j = rng.below(k as u64 + 1) as usize;
+        cells.swap(k, j);
+    }
+    cells.into_iter().map(|(i, j)| l(vec![a(5), a(i), a(j), a(rng.val(16))])).collect()
+}
+
+/// all sequences of length <= n over the items
+fn sequences(items: &[u64], n: usize) -> Vec<Vec<u64>> {
+    let mut res: Vec<Vec<u64>> = vec![vec![]];
+    let mut last: Vec<Vec<u64>> = vec![vec![]];
+    for _ in 0..n {
+        let mut next = Vec::new();
+        for s in &last {
+            for it in items {
+                let mut t = s.clone();
+                t.push(*it);
+                next.push(t);
+            }
+        }
+        res.extend(next.iter().cloned());
+        last = next;
+    }
+    res
+}
+
+pub fn gen(tier: &str, rng: &mut Rng, emit: &mut Emit) {
+    let kinds: Vec<u64> = vec![1, 2, 3];
+    let thorough = tier == "thorough";
+    // empty history
+    for _ in 0..4 {
+        let c = rand_ctor(rng);
+        emit.case(15, history(rng, c, vec![]));
+    }
+    // each entry kind alone, all ordered pairs
+    for k in &kinds {
+        for _ in 0..8 {
+            let c = rand_ctor(rng);
+            let op = rand_op(rng, *k);
+            emit.case(15, history(rng, c, vec![op]));
+        }
+    }
+    for k1 in &kinds {
+        for k2 in &kinds {
+            for _ in 0..3 {
+                let c = rand_ctor(rng);
+                let ops = vec![rand_op(rng, *k1), rand_op(rng, *k2)];
+                emit.case(15, history(rng, c, ops));
+            }
+        }
+    }
+    // homogeneous runs of the smallest entries (255 -> 256 entries) and a run crossing 65535 -> 65536 bytes
+    for k in [1u64, 2, 3] {
+        let c = rand_ctor(rng);
+        let ops = (0..300)
+            .map(|_| match k {
+                1 => rand_op(rng, 1),
+                2 => locality(rng, 0, 0, vec![]),
+                _ => side_cache(rng, 0),
+            })
+            .collect();
+        emit.case(15, history(rng, c, ops));
+    }
+    {
+        let c = rand_ctor(rng);
+        let ops = (0..1645).map(|_| rand_op(rng, 1)).collect(); // 1645 * 40 bytes > 65536
+        emit.case(15, history(rng, c, ops));
+    }
+    // locality flag builders: every sequence of length <= 4 over the two builders (subsets, orders, repetitions)
+    for seq in sequences(&[1, 2], 4) {
+        let c = rand_ctor(rng);
+        let bs = seq.iter().map(|b| l(vec![a(*b)])).collect();
+        let ni = rng.below(3);
+        let nt = rng.below(3);
+        let op = locality(rng, ni, nt, bs);
+        emit.case(15, history(rng, c, vec![op]));
+    }
+    // flag builders interleaved with value setters
+    for _ in 0..40 {
+        let c = rand_ctor(rng);
+        let (ni, nt) = (rng.range(1, 4), rng.range(1, 4));
+        let k = rng.below(10);
+        let bs = (0..k).map(|_| rand_loc_builder(rng, ni, nt)).collect();
+        let op = locality(rng, ni, nt, bs);
+        emit.case(15, history(rng, c, vec![op]));
+    }
+    // matrices: shapes 1..5 x 1..5 (and the degenerate 0-sized ones), every cell assigned in random order with repeats
+    for ni in 0..=5u64 {
+        for nt in 0..=5u64 {
+            for rep in 0..3u64 {
+                let c = rand_ctor(rng);
+                let mut bs = all_cells(rng, ni, nt, rep * 3);
+                // initiator / target proximity domains
+                for i in 0..ni {
+                    if rng.chance(2, 3) {
+                        bs.insert(rng.below(bs.len() as u64 + 1) as usize, l(vec![a(3), a(i), a(rng.val(32))]));
+                    }
+                }
+                for j in 0..nt {
+                    if rng.chance(2, 3) {
+                        bs.insert(rng.below(bs.len() as u64 + 1) as usize, l(vec![a(4), a(j), a(rng.val(32))]));
+                    }
+                }
+                let op = locality(rng, ni, nt, bs);
+                emit.case(15, history(rng, c, vec![op]));
+            }
+        }
+    }
+    // exhaustive short assignment sequences on small shapes: every sequence of <= 2 assignments over all cells
+    for (ni, nt) in [(1u64, 1u64), (1, 2), (2, 1), (2, 2), (2, 3), (3, 2)] {
+        let cells: Vec<u64> = (0..ni * nt).collect();
+        for seq in sequences(&cells, 2) {
+            let c = rand_ctor(rng);
+            let bs = seq.iter().map(|k| l(vec![a(5), a(k / nt), a(k % nt), a(rng.val(16))])).collect();
+            let op = locality(rng, ni, nt, bs);
+            emit.case(15, history(rng, c, vec![op]));
+        }
+    }
+    // single row / single column
+    for n in [1u64, 2, 3, 7, 12, 20] {
+        for (ni, nt) in [(1, n), (n, 1)] {
+            let c = rand_ctor(rng);
+            let bs = all_cells(rng, ni, nt, 4);
+            let op = locality(rng, ni, nt, bs);
+            emit.case(15, history(rng, c, vec![op]));
+        }
+    }
+    // random shapes up to 20 x 20, partial and repeated assignments
+    let nshapes = if thorough { 300 } else { 40 };
+    for _ in 0..nshapes {
+        let c = rand_ctor(rng);
+        let (ni, nt) = (rng.range(1, 20), rng.range(1, 20));
+        let bs = if rng.chance(1, 3) {
+            let extra = rng.below(20);
+            all_cells(rng, ni, nt, extra)
+        } else {
+            let k = rng.below(2 * ni * nt + 1);
+            (0..k).map(|_| l(vec![a(5), a(rng.below(ni)), a(rng.below(nt)), a(rng.val(16))])).collect()
+        };
+        let op = locality(rng, ni, nt, bs);
+        emit.case(15, history(rng, c, vec![op]));
+    }
+    // out-of-range indices (refused): on the boundary, transposed on non-square shapes, far beyond
+    for (ni, nt) in [(0u64, 0u64), (0, 3), (3, 0), (1, 1), (2, 3), (3, 2), (4, 4), (1, 5), (5, 1)] {
+        let mut bad: Vec<Sx> = vec![
+            l(vec![a(3), a(ni), a(rng.val(32))]),
+            l(vec![a(4), a(nt), a(rng.val(32))]),
+            l(vec![a(5), a(ni), a(0), a(rng.val(16))]),
+            l(vec![a(5), a(0), a(nt), a(rng.val(16))]),
+            l(vec![a(5), a(ni), a(nt), a(rng.val(16))]),
+            l(vec![a(5), a(nt), a(ni), a(rng.val(16))]),
+            l(vec![a(5), a(1u64 << 63), a(0), a(rng.val(16))]),
+            l(vec![a(5), a(0), a(u64::MAX), a(rng.val(16))]),
+            l(vec![a(3), a(u64::MAX), a(1)]),
+            l(vec![a(4), a(1u64 << 32), a(1)]),
+        ];
+        if nt > 0 {
+            bad.push(l(vec![a(5), a(ni), a(nt - 1), a(7)]));
+        }
+        if ni > 0 {
+            bad.push(l(vec![a(5), a(ni - 1), a(nt), a(7)]));
+        }
+        if ni > 1 && nt > 1 {
+            // a transposed in-range pair of the mirrored shape
+            bad.push(l(vec![a(5), a(nt - 1), a(ni - 1), a(9)]));
+        }
+        for b in bad {
+            let c = rand_ctor(rng);
+            let mut bs = all_cells(rng, ni, nt, 0);
+            let pos = rng.below(bs.len() as u64 + 1) as usize;
+            bs.insert(pos, b);
+            let pre = rand_op(rng, 1);
+            let op = locality(rng, ni, nt, bs);
+            emit.case(15, history(rng, c, vec![pre, op]));
+        }
+    }
+    // memory side caches with 0..70 SMBIOS handles; every enum value
+    for k in 0..=70usize {
+        let c = rand_ctor(rng);
+        let op = side_cache(rng, k);
+        emit.case(15, history(rng, c, vec![op]));
+    }
+    for tl in 0..4u64 {
+        for lv in 0..4u64 {
+            for asc in 0..3u64 {
+                for wp in 0..3u64 {
+                    let c = rand_ctor(rng);
+                    let op = l(vec![a(3), a(rng.val(32)), a(rng.val(64)), a(tl), a(lv), a(asc), a(wp), a(rng.val(16)), l(vec![a(rng.val(16))])]);
+                    emit.case(15, history(rng, c, vec![op]));
+                }
+            }
+        }
+    }
+    for lt in 0..4u64 {
+        for dt in 0..6u64 {
+            for mts in 0..12u64 {
+                let c = rand_ctor(rng);
+                let op = l(vec![a(2), a(lt), a(dt), a(mts), a(rng.val(64)), a(1), a(1), l(vec![l(vec![a(5), a(0), a(0), a(rng.val(16))])])]);
+                emit.case(15, history(rng, c, vec![op]));
+            }
+        }
+    }
+    // random mixed histories
+    let n = if thorough { 3000 } else { 200 };
+    for _ in 0..n {
+        let c = rand_ctor(rng);
+        let len = match rng.below(3) {
+            0 => rng.range(1, 6),
+            1 => rng.range(1, 24),
+            _ => rng.range(25, 120),
+        };
+        let ops = (0..len)
+            .map(|_| {
+                let k = *rng.pick(&kinds);
+                rand_op(rng, k)
+            })
+            .collect();
+        emit.case(15, history(rng, c, ops));
+    }
+}
+
+/// C18: the SMBIOS handle count is a u16 field (hmat.rs MemorySideCache)
+#[allow(dead_code)]
+pub fn gen18(_tier: &str, rng: &mut Rng, emit: &mut Emit) {
+    for k in [65_534usize, 65_535, 65_536, 65_537, 70_000, 131_072] {
+        let c = rand_ctor(rng);
+        let pre = rand_op(rng, 1);
+        let op = side_cache(rng, k);
+        emit.case(15, history(rng, c, vec![pre, op]));
+    }
+}
